@@ -211,15 +211,16 @@ def run_entry_points(d, analyses, work, floor):
 
 
 def diagnose_fs_timeout(d, work):
-    """Is a field-sensitive timeout the access-path duplication (finding F3)?  The faithful model must run out of fuel on the
-    dumped graph with access-path lists longer than the number of distinct paths, and the repaired variant must terminate."""
+    """Is a field-sensitive timeout the access-path duplication (F3, fixed in /repo by d51dcca)?  The model of the ORIGINAL addNext
+    (-oldaps) must run out of fuel on the dumped graph with access-path lists longer than the number of distinct paths, and the
+    model of the current addNext (canonical access paths) must terminate."""
     name = os.path.basename(d)
     dump = os.path.join(work, name + ".f3.dump")
     rc, out = vlib.sh([os.path.join(vlib.BIN, "travdump"), "-novisit", "-fs", "1", "-o", dump, d], timeout=900)
     if rc != 0 or not os.path.exists(dump):
         return False, "travdump -novisit failed: " + out[-300:]
     npaths = sum(1 for l in open(dump) if l.startswith("PATH "))
-    rc, o1, _ = vlib.sh2([os.path.join(vlib.BIN, "travmodel"), "-mode", "run", "-seeds", "1", "-fuel", "600", dump], timeout=600)
+    rc, o1, _ = vlib.sh2([os.path.join(vlib.BIN, "travmodel"), "-oldaps", "-mode", "run", "-seeds", "1", "-fuel", "600", dump], timeout=600)
     rc2, o2, _ = vlib.sh2([os.path.join(vlib.BIN, "travmodel"), "-fixaps", "-mode", "run", "-seeds", "1", "-fuel", "200000", dump], timeout=600)
     faithful = [l for l in o1.splitlines() if l.startswith("MRES")]
     repaired = [l for l in o2.splitlines() if l.startswith("MRES")]
